@@ -764,7 +764,23 @@ def _np_cumsum(eng, args, kwargs):
     return out
 
 
+def _np_all(eng, args, kwargs):
+    """np.all(mask) / np.any(mask) of a 1-D boolean array, no axis: the array's own .all() / .any()"""
+    if len(args) != 1 or kwargs:
+        raise Unsupported("np.all / np.any with axis or further arguments")
+    used(eng, "np.all")
+    return _a_all(eng, args[0], [], {})
+
+
+def _np_any(eng, args, kwargs):
+    if len(args) != 1 or kwargs:
+        raise Unsupported("np.all / np.any with axis or further arguments")
+    used(eng, "np.any")
+    return _a_any(eng, args[0], [], {})
+
+
 NP_MODELS = {
+    np.all: _np_all, np.any: _np_any,
     np.cumsum: _np_cumsum,
     np.arange: _np_arange, np.where: _np_where, np.count_nonzero: _np_count_nonzero, np.full_like: _np_full_like,
     np.ones_like: _np_ones_like, np.zeros_like: _np_zeros_like, np.array: _np_array, np.issubdtype: _np_issubdtype,
